@@ -131,6 +131,9 @@ func (st *State) doCall(instr *ssa.Call, c *ssa.CallCommon, fnv Value, args []Va
 		}
 	}
 	hasBody := callee.Blocks != nil
+	if spec != nil && spec.Flags["trusted"] != "" {
+		e.trusted[key+" (trusted contract on a repository function: used at call sites, not verified)"] = true
+	}
 	useContract := spec != nil && (len(spec.Requires) > 0 || len(spec.Ensures) > 0 || spec.HasMod || spec.Extern || spec.Flags["contract"] != "") && spec.Flags["inline"] == ""
 	if useContract {
 		spec.Used = true
